@@ -1,6 +1,8 @@
 package main
 
 import (
+	"crypto/md5"
+	"os"
 	"fmt"
 	"go/ast"
 	"go/types"
@@ -71,17 +73,17 @@ func (w *World) genFunc(ctr *FuncContract) (rep *FuncReport) {
 	}
 	entry := &State{comps: map[string]Term{}}
 	e.allocCtr(entry)
-	if len(ctr.FrameProps) > 0 || ctr.usesCached() {
-		e.comp(entry, "CACHED", "(Array Int Bool)")
-	}
-	for n := range e.trackCalled {
+	// always present (irrelevant facts are sliced away): whether it exists must not depend on which callee
+	// summaries were computed by this executor
+	e.comp(entry, "CACHED", "(Array Int Bool)")
+	for _, n := range sortedKeys(e.trackCalled) {
 		e.comp(entry, "CALLED_"+cleanSym(n), "Bool")
 		e.comp(entry, "COUNT_"+cleanSym(n), "Int")
 		e.assume(Not(e.compInit["CALLED_"+cleanSym(n)]), "")
 		e.assume(Eq(e.compInit["COUNT_"+cleanSym(n)], "0"), "")
 	}
 	// constants of once-initialised globals are declared up front (stable cell references)
-	for key := range globalNonNil {
+	for _, key := range sortedKeys(globalNonNil) {
 		i := strings.LastIndex(key, ".")
 		for _, p := range w.prog.AllPackages() {
 			if p.Pkg.Path() == key[:i] {
@@ -271,6 +273,7 @@ func (e *Exec) loopInvariant(f *Frame, li *loopInfo, st *State, pc Term, kind st
 	}
 	env := e.rootEnv(f, st)
 	env.frame = f
+	env.loopHdr = li.header
 	for i, cl := range cls {
 		t, err := e.evalBool(env, cl.Expr)
 		if err != nil {
@@ -297,6 +300,7 @@ func (e *Exec) loopInvariantAssume(f *Frame, li *loopInfo, st *State) {
 	}
 	env := e.rootEnv(f, st)
 	env.frame = f
+	env.loopHdr = li.header
 	for _, cl := range cls {
 		t, err := e.evalBool(env, cl.Expr)
 		if err != nil {
@@ -397,7 +401,8 @@ func (e *Exec) script(o *Obligation, withModel bool, focused bool) string {
 				continue
 			}
 			hit := false
-			if focused && it.Key != "" {
+			if it.Key != "" {
+				// a fact about one symbol (frame axiom, facts of a component version): relevant only with that symbol
 				hit = needed[it.Key]
 			} else if focused && allocOnly(it.syms) {
 				// monotonicity chain of the allocation counter: cheap, always relevant once a counter is needed
@@ -429,9 +434,60 @@ func (e *Exec) script(o *Obligation, withModel bool, focused bool) string {
 		b.WriteString("(set-option :produce-models true)\n")
 	}
 	b.WriteString("; obligation: " + o.Name + "\n; " + strings.ReplaceAll(o.Desc, "\n", " ") + "\n")
-	b.WriteString(e.reg.datatypeDecls())
-	for i, it := range items {
+	used := map[string]bool{}
+	for _, sy := range symbolsOf(goal) {
+		used[sy] = true
+	}
+	for i := range items {
 		if include[i] {
+			for _, sy := range items[i].syms {
+				used[sy] = true
+			}
+		}
+	}
+	b.WriteString(e.reg.datatypeDeclsFor(used))
+	// initial versions of heap components first, by name: when an executor first met a component (while
+	// computing a callee summary or only on using a memoised one) must not change the script
+	var inits []string
+	hoisted := make([]bool, len(items))
+	hoistedDecl := make([]bool, len(items))
+	for i, it := range items {
+		if include[i] && it.Kind == ItemDecl && (strings.HasPrefix(it.Text, "(declare-const ") || strings.HasPrefix(it.Text, "(declare-fun ")) && !strings.Contains(it.Text, "\n") {
+			inits = append(inits, it.Text)
+			hoisted[i] = true
+			hoistedDecl[i] = true
+		}
+	}
+	sort.Strings(inits)
+	for _, t := range inits {
+		b.WriteString(t)
+		b.WriteByte('\n')
+	}
+	// ... and the facts about those initial versions (they mention only initial versions, globals and rtype)
+	var initFacts []string
+	initDecl := map[string]string{}
+	for i, it := range items {
+		if !include[i] || !it.Init {
+			continue
+		}
+		hoisted[i] = true
+		if it.Kind == ItemAssume {
+			initFacts = append(initFacts, it.Text)
+		} else if !hoistedDecl[i] {
+			initDecl[it.Text] = it.Text
+		}
+	}
+	for _, t := range sortedKeys(initDecl) {
+		b.WriteString(t)
+		b.WriteByte('\n')
+	}
+	sort.Strings(initFacts)
+	for _, t := range initFacts {
+		b.WriteString(t)
+		b.WriteByte('\n')
+	}
+	for i, it := range items {
+		if include[i] && !hoisted[i] {
 			b.WriteString(it.Text)
 			b.WriteByte('\n')
 		}
@@ -460,6 +516,19 @@ func solveAll(dir string, reps []*FuncReport, filter func(*Obligation) bool, tim
 			}
 		}
 	}
+	if df := os.Getenv("GOVC_DIGEST"); df != "" {
+		// determinism probe: one line per obligation with the hash of its full script
+		var lines []string
+		for _, j := range jobs {
+			sc := j.e.script(j.o, false, false)
+			lines = append(lines, fmt.Sprintf("%s %x", j.o.Name, md5.Sum([]byte(sc))))
+			if fnf := os.Getenv("GOVC_DIGEST_FN"); fnf != "" && strings.Contains(j.o.Name, fnf) {
+				_ = os.WriteFile(df+"."+sanitizeFile(j.o.Name)+".smt2", []byte(sc), 0o644)
+			}
+		}
+		sort.Strings(lines)
+		_ = os.WriteFile(df, []byte(strings.Join(lines, "\n")+"\n"), 0o644)
+	}
 	results := make([]*OblResult, len(jobs))
 	solveOne := func(j job, timeoutS int, focusedS int) *OblResult {
 		// tier 1: focused slice (proving only); tier 2: the full context
@@ -487,6 +556,18 @@ func solveAll(dir string, reps []*FuncReport, filter func(*Obligation) bool, tim
 			or.Status = "cover-failed"
 		case j.o.ExpectSat:
 			or.Status = "cover-undecided"
+			// the solvers cannot build a model under universally quantified assumptions: retry without the
+			// quantified assertions (a weaker set). unsat there is a definite vacuity; sat is reported as weak
+			weak := dropQuantifiedAsserts(script)
+			wres := runSolvers(dir, j.o.Name+".w", weak, min(timeoutS, 5), false, false)
+			switch wres.Verdict {
+			case "unsat":
+				or.Status = "cover-failed"
+				or.Res = wres
+			case "sat":
+				or.Status = "cover-ok-weak"
+				or.Res = wres
+			}
 		case res.Verdict == "unsat":
 			or.Status = "discharged"
 		case res.Verdict == "sat":
@@ -593,4 +674,17 @@ func allocOnly(syms []string) bool {
 		return false
 	}
 	return n > 0
+}
+
+// dropQuantifiedAsserts removes every top-level (assert ...) line that contains a quantifier.
+func dropQuantifiedAsserts(script string) string {
+	var b strings.Builder
+	for _, line := range strings.Split(script, "\n") {
+		if strings.HasPrefix(line, "(assert ") && (strings.Contains(line, "(forall ") || strings.Contains(line, "(exists ")) && !strings.Contains(line, "(check-sat)") {
+			continue
+		}
+		b.WriteString(line)
+		b.WriteByte('\n')
+	}
+	return b.String()
 }
